@@ -824,7 +824,52 @@ func genCtlCanaryCase(c *Ctx) ccIn {
 		in.Exp = "pending"
 	}
 	ops := []string{"initialize", "upgradeBatch", "ensureReady", "finalize"}
-	switch c.Rng.Intn(6) {
+	switch c.Rng.Intn(7) {
+	case 6: // Finalize under WaitResume retried: the stable Deployment is already released and resumed, pods not yet updated
+		br.WaitResume = true
+		if c.Rng.Intn(5) != 0 {
+			br.Partition = nil
+		}
+		in.BR = br
+		in.World = ccGenWorld(c, br, R, c.Rng.Intn(3), true)
+		already := c.Rng.Intn(2) == 0
+		for i := range in.World {
+			d := &in.World[i]
+			if d.Name != 0 {
+				continue
+			}
+			if d.Strategy.Rolling == nil {
+				d.Strategy.Rolling = &ccRolling{MaxUnavailable: J{"p": 25}}
+			}
+			d.UpdatedReplicas = 0
+			if R > 0 && c.Rng.Intn(3) == 0 {
+				d.UpdatedReplicas = c.Rng.Intn(R)
+			}
+			if c.Rng.Intn(8) == 0 {
+				d.UpdatedReplicas = R // nothing left to wait for
+			}
+			if already { // what a first attempt whose wait failed left behind
+				d.Ctrl = "none"
+				d.Paused = br.Partition != nil
+			} else {
+				d.Ctrl = "this"
+				d.Paused = true
+			}
+		}
+		n := 1
+		if !already || c.Rng.Intn(2) == 0 {
+			n = 2 + c.Rng.Intn(2)
+		}
+		for i := 0; i < n; i++ {
+			st := ccStep{Ev: "none", Op: "finalize"}
+			if i > 0 && c.Rng.Intn(3) == 0 {
+				st.Ev = "observe" // the Deployment controller finished the rollout
+			}
+			if c.Rng.Intn(4) == 0 {
+				ccGenFault(c, &st, 8)
+			}
+			in.Steps = append(in.Steps, st)
+		}
 	case 0: // one call on an arbitrary (possibly odd) world
 		in.World = ccGenWorld(c, br, R, c.Rng.Intn(5), false)
 		st := ccStep{Ev: "none", Op: ops[c.Rng.Intn(4)], CurrentBatch: ccPickBatch(c, br), TimedOut: c.Rng.Intn(4) == 0}
